@@ -117,6 +117,9 @@ long vh_call_allocs = 0, vh_fail_at = 0, vh_fail_from = 0, vh_failed = 0, vh_bad
 long vh_overlap_copies = 0;
 volatile long vh_locks = 0, vh_unlocks = 0, vh_usleeps = 0;
 volatile int vh_force_busy = 0;
+void (*vh_hook_before_lock)(void) = NULL;
+void (*vh_hook_locked)(void) = NULL;
+void (*vh_hook_unlocked)(void) = NULL;
 
 #ifdef VH_SANITIZER
 /* sanitizer builds: no link-time wrapping; the sanitizer is the monitor */
@@ -286,19 +289,21 @@ char *__wrap_strncpy(char *d, const char *s, size_t m) {
 
 /* ---- lock tracer ---- */
 int __wrap_pthread_mutex_trylock(pthread_mutex_t *m) {
+    if (vh_hook_before_lock) vh_hook_before_lock();
     if (vh_force_busy > 0) { vh_force_busy--; return EBUSY; }
     int r = __real_pthread_mutex_trylock(m);
-    if (r == 0) __sync_add_and_fetch(&vh_locks, 1);
+    if (r == 0) { __sync_add_and_fetch(&vh_locks, 1); if (vh_hook_locked) vh_hook_locked(); }
     return r;
 }
 int __wrap_pthread_mutex_lock(pthread_mutex_t *m) {
+    if (vh_hook_before_lock) vh_hook_before_lock();
     int r = __real_pthread_mutex_lock(m);
-    if (r == 0) __sync_add_and_fetch(&vh_locks, 1);
+    if (r == 0) { __sync_add_and_fetch(&vh_locks, 1); if (vh_hook_locked) vh_hook_locked(); }
     return r;
 }
 int __wrap_pthread_mutex_unlock(pthread_mutex_t *m) {
     int r = __real_pthread_mutex_unlock(m);
-    if (r == 0) __sync_add_and_fetch(&vh_unlocks, 1);
+    if (r == 0) { __sync_add_and_fetch(&vh_unlocks, 1); if (vh_hook_unlocked) vh_hook_unlocked(); }
     return r;
 }
 int __wrap_usleep(useconds_t u) { (void) u; __sync_add_and_fetch(&vh_usleeps, 1); return 0; }
